@@ -304,7 +304,7 @@ def _run_split(case, ctx):
                              "values": tr.getAnalyticalFeature("v"), "threshold": 1.5, "mode": case.get("mode"),
                              "got": got, "expected": markers}, sig, nontrivial, cls)
     if (n + sum(markers)) % 4 == 1:
-        tr, _how = gen.derive(tr, (n, markers, via))
+        tr, _how = gen.derive(tr, (n, markers, via), allow=gen.DERIVE_HOWS + ["hidden_slots", "hidden_slots"])
         tr.uid = "src"
     src_obs = [tr.getObs(i) for i in range(n)]
     before = _snapshot(tr)
@@ -413,6 +413,8 @@ def _run_seg(case, ctx):
         ctx.count("rejected_request_before_valid_one")
     for f in range(k):
         tr.createAnalyticalFeature(names[f], [vals[i][f] for i in range(n)])
+    if (n + k + sum(expected)) % 3 == 1:
+        tr, _how = gen.derive(tr, (vals, thr, mode), allow=gen.DERIVE_HOWS + ["hidden_slots", "hidden_slots"])
     if case.get("prior"):
         # history: the output feature already exists, filled by the other mode
         r0 = M.call(segmentation, tr, afs, "m", thrs, _mode_const("OR" if mode == "AND" else "AND"))
